@@ -434,3 +434,15 @@ Proof. reflexivity. Qed.
 
 Lemma wf_digits_15 : wf_digits [1; 5].
 Proof. unfold wf_digits. simpl. repeat split; try lia. repeat constructor; lia. Qed.
+
+(* an int that float() cannot hold is refused with ValueError *)
+Lemma canon_refuses_too_large_int_proof : forall z, float_overflows z = true -> canon (JInt z) = JRaise ValueError.
+Proof.
+  intros z H. unfold canon, int_too_big. 
+  assert (E : int_float_repr z = None).
+  { unfold int_float_repr, float_overflows in *. apply Z.leb_le in H.
+    assert (B : (9007199254740992 < 2 ^ 1024 - 2 ^ 970)%Z) by (vm_compute; reflexivity).
+    destruct (Z.eqb_spec z 0); [subst; exfalso; simpl in H; lia|].
+    destruct (Z.leb_spec (Z.abs z) 9007199254740992); [exfalso; lia|reflexivity]. }
+  rewrite E, H. reflexivity.
+Qed.
